@@ -113,10 +113,11 @@ class FancyDotWriter(CachedMapper[_FancyDotWriterNode, Never, []]):
         self.edges: set[tuple[str, str]] = set()
 
     def map_placeholder(self, expr: Placeholder) -> _FancyDotWriterNode:
-        node_decl = (f"{expr.name} [color={PLACEHOLDER_COLOR}, "
+        # (quoted: a name may be a DOT keyword such as "node" or "graph")
+        node_decl = (f'"{expr.name}" [color={PLACEHOLDER_COLOR}, '
                      f"shape={PLACEHOLDER_SHAPE}]")
         self.node_decls.append(node_decl)
-        return PlainOldDotNode(expr.name)
+        return PlainOldDotNode(f'"{expr.name}"')
 
     def map_data_wrapper(self, expr: DataWrapper) -> _FancyDotWriterNode:
         return NoShowNode()
